@@ -11,7 +11,13 @@ Hardening round 3: (a) record types where a bare tuple / pair / hand-written con
 `@dataclass` classes of the analysed module (fields, defaults, default factories, __post_init__; enumeration members are singleton objects), the recognisers read a record construction
 in FIELD order (`_returned_elts`) and a field / index selection as the position it stands for (`_selected_element`); (b) O3.10, the one path rule of this module without a value run
 behind it, is re-stated on facts established along CFG edges with file names and existence tests evaluated on values (see `_stale_table_rule`); it falsifies only when every statement
-on the way that is handed the path is understood; (c) the evaluator knows dict union, contextlib.suppress / closing / nullcontext, typing.cast, copy, more of itertools."""
+on the way that is handed the path is understood; (c) the evaluator knows dict union, contextlib.suppress / closing / nullcontext, typing.cast, copy, more of itertools.
+
+Hardening round 4: O3.10's remover is a ROLE decided on values - whatever the loader calls in the io module (a function, a static / class method such as `io.FileOffsetTable.remove(p)`
+after the pass-through wrapper was inlined, a method of the table object a factory returned) is RUN in the rule's file system (`os.remove` / `os.unlink` / `Path.unlink` act on a set
+of existing paths): the files it deletes name the remover, and a call establishes 'no table of this file' iff it returns without the table in every world it returns in - whatever
+options (`missing_ok=True`), parameter order or wrappers are involved. Methods of objects created by io code run in the io machine; a statement that cannot be run is 'not decided'
+there (`_M.strict_effects`), never 'no effect'."""
 from __future__ import annotations
 
 import ast
@@ -432,6 +438,7 @@ class _M:
     def __init__(self, mod=None, imports=None, hooks=None, ext=None, budget=400000):
         self.mod, self.imports, self.hooks, self.ext = mod, (imports if imports is not None else (mod.imports if mod is not None else {})), hooks or {}, ext or {}
         self.steps, self.budget, self.depth = 0, budget, 0
+        self.strict_effects = False  # set by a rule whose question is what the evaluated code does to something OUTSIDE the evaluated world (files): see exec
         self._mro: dict = {}
         self._glob: dict = {}
         self._members: dict = {}
@@ -1243,6 +1250,8 @@ class _M:
                 except _Cannot:
                     if self.touches_mutable(v, env) and not _is_logging(v):
                         raise
+                    if self.strict_effects and not _is_logging(v) and not (isinstance(v, ast.Call) and (dotted(v.func) or "").startswith(("console.", "logging.", "print", "warnings."))):
+                        raise  # (the skipped statement may be the very effect the rule asks about - `shutil.rmtree(..)`, a library call: not decided rather than 'no effect')
             elif isinstance(s, (ast.Assign, ast.AnnAssign)):
                 if s.value is None:
                     continue
@@ -1429,13 +1438,28 @@ def _deleted_path_expr(c):
     return None
 
 
+def _path_param(f):
+    """the parameter of an io function / static or class method that names the data file: its ONLY parameter without a default value (options such as `missing_ok=False` stand
+    behind it and do not change which file is meant), else None."""
+    a = f.args
+    pos = [x.arg for x in a.posonlyargs + a.args]
+    optional = set(pos[len(pos) - len(a.defaults):] if a.defaults else []) | {x.arg for x, d_ in zip(a.kwonlyargs, a.kw_defaults) if d_ is not None}
+    required = [p for p in _own_params(f) + [x.arg for x in a.kwonlyargs] if p not in optional]
+    return required[0] if len(required) == 1 else None
+
+
 def _removed_files(io_, f, depth=0):
-    """names of the files an io function deletes for the sample data path (directly - os.remove / os.unlink / Path(..).unlink - or through another function of the module it hands
-    its path to); None among them: a deletion whose file name cannot be evaluated."""
-    ps = _own_params(f)
+    """names of the files an io function deletes for the sample data path (directly - os.remove / os.unlink / Path(..).unlink - or through another function / static or class method
+    of the module it hands its path to, whatever options go with it); None among them: a deletion whose file name cannot be evaluated."""
+    p = _path_param(f)
     out = set()
-    if len(ps) != 1 or depth > 3:
+    if p is None or depth > 3:
         return out
+    if depth == 0:
+        if getattr(f, "_c03_removed", None) is None:
+            f._c03_removed = _removed_files(io_, f, 1)  # (kept with the parsed function: asked for many times per run)
+        return set(f._c03_removed)
+    ps = _own_params(f) + [x.arg for x in f.args.kwonlyargs]
     owner = source.enclosing_class(f)
     extra = {"cls": _Cls(owner), "self": _Obj(owner)} if isinstance(owner, ast.ClassDef) else {}
     for c in source.calls_in(f):
@@ -1444,14 +1468,35 @@ def _removed_files(io_, f, depth=0):
         if t is not None:
             # (locals are inlined unless the object they name is modified afterwards: `table.path = tmp` - the deletion then names whatever the attribute holds at that point)
             touched = {n_.value.id for n_ in walk_body(f) if isinstance(n_, ast.Attribute) and isinstance(n_.ctx, (ast.Store, ast.Del)) and isinstance(n_.value, ast.Name)}
-            out.add(_str_value(inline_node(t, {k: v for k, v in local_defs(f).items() if k not in ps and k not in touched}), ps[0], io_, extra))
-        elif d is not None and len(c.args) == 1 and not c.keywords and pat.is_(c.args[0], "V_p", binds={"p": ps[0]}):
+            out.add(_str_value(inline_node(t, {k: v for k, v in local_defs(f).items() if k not in ps and k not in touched}), p, io_, extra))
+        elif d is not None:
             if d.split(".", 1)[0] in ("cls", "self") and isinstance(owner, ast.ClassDef) and "." in d:
                 d = f"{owner.name}.{d.split('.', 1)[1]}"
             callee = io_.get(d, required=False)
-            if isinstance(callee, source.FUNC_TYPES):
+            # the callee is handed this function's path as ITS path (by position or by keyword)
+            if isinstance(callee, source.FUNC_TYPES) and callee is not f and _path_param(callee) is not None and pat.is_(bind_args(c, callee).get(_path_param(callee)), "V_p", binds={"p": p}):
                 out |= _removed_files(io_, callee, depth + 1)
     return out
+
+
+def _may_delete(io_, f, depth=0) -> bool:
+    """the io function (or a function / method of the module it calls by name) contains a statement that deletes a file."""
+    if depth > 3:
+        return True
+    owner = source.enclosing_class(f)
+    for c in source.calls_in(f):
+        if _deleted_path_expr(c) is not None or (dotted(c.func) or "") in ("shutil.rmtree", "shutil.move", "os.replace", "os.rename"):
+            return True
+        d = dotted(c.func) or ""
+        if d.split(".", 1)[0] in ("cls", "self") and isinstance(owner, ast.ClassDef) and "." in d:
+            d = f"{owner.name}.{d.split('.', 1)[1]}"
+        callee = io_.get(d, required=False) if d else None
+        # (a method called on an object - `Table.for_file(p).delete()`, `table.delete()` -: whichever class of the module defines a method of that name)
+        callees = [callee] if isinstance(callee, source.FUNC_TYPES) else \
+            [m_ for k_ in io_.classes() for m_ in io_.methods(k_).values() if isinstance(c.func, ast.Attribute) and m_.name == c.func.attr and not is_self_attr(c.func)] if callee is None else []
+        if any(g_ is not f and _may_delete(io_, g_, depth + 1) for g_ in callees):
+            return True
+    return False
 
 
 def _stale_table_rule(chk, ldr, io_):
@@ -1465,7 +1510,14 @@ def _stale_table_rule(chk, ldr, io_):
     with and without the table file: `if os.path.exists(f"{p}.offset")`, a hoisted `stale = ...`, a guard clause `if not exists: return`, `Table.read_for_data_file(p).exists()`).
     A (re)creation is in order when no normal path from it to the table preparation avoids those edges (or every path to it passes one and no preparation lies in between). File
     names are compared as VALUES for a sample data path. Falsified only when every statement on the way that is handed the path is understood; a call of unknown effect that
-    receives the path makes the verdict 'not recognised'."""
+    receives the path makes the verdict 'not recognised'.
+
+    Hardening round 4: the remover is located by what it DOES, not by its name or signature: every call (chain) of the loader that is rooted in an io callable - module function,
+    static / class method (`io.FileOffsetTable.remove(p)`), method of the object a factory returned (`table.delete()`) - is run for the sample path in the rule's file system; the
+    files it tries to delete make it a remover (`deleted_by_value`), and at a statement of the preparator the call establishes the fact iff it returns without the table whenever
+    it returns, and does return with the table in place (`removal_by_value`: options such as `missing_ok=True`, a required flag, wrappers, try / except FileNotFoundError are
+    simply executed). The deletions written in the callable for its path parameter (`_removed_files`, `_path_param`: the only parameter without a default) remain the fallback
+    when a call cannot be run."""
     chk.rule("O3.10", "offset tables are only used with the file they were built from: the table's file name is the same for writer, reader and remover, and every statement of the corpus "
              "preparation that (re)creates the document file (decompress into it, download to a target that may be it) removes an existing offset table of that file on every normal "
              "path before the table is prepared", 4,
@@ -1493,44 +1545,151 @@ def _stale_table_rule(chk, ldr, io_):
             if a is not None and len(ps) == 1:
                 names[m.name] = _str_value(inline_node(a, {k: v for k, v in local_defs(m).items() if k not in ps}), ps[0], io_, {"cls": _Cls(FT)})
     io_funcs = {f.name: f for f in io_.tree.body if isinstance(f, source.FUNC_TYPES)}
+    # what the loader can call in the io module: its functions and the static / class methods of its classes (`io.remove_file_offset_table(p)`, `io.FileOffsetTable.remove(p)`)
+    io_callables = dict(io_funcs)
+    for c_ in [c_ for c_ in io_.tree.body if isinstance(c_, ast.ClassDef)]:
+        for mm in io_.methods(c_).values():
+            if any(_last(d) in ("classmethod", "staticmethod") for d in mm.decorator_list):
+                io_callables[f"{c_.name}.{mm.name}"] = mm
     io_path = io_.modname
 
     def io_callee(c, mod):
-        """the io module's function a call in `mod` names (through the module alias or a direct import), else None."""
+        """the io module's function / static or class method a call in `mod` names (through the module alias or a direct import of the function or of the class), else None."""
         d = dotted(c.func)
         if d is None:
             return None
         head, _, rest = d.partition(".")
         full = f"{mod.imports[head]}.{rest}" if rest and head in mod.imports else (mod.imports.get(d) if not rest else None)
-        if full is not None and full.startswith(io_path + ".") and full[len(io_path) + 1:] in io_funcs:
-            return io_funcs[full[len(io_path) + 1:]]
+        if full is not None and full.startswith(io_path + ".") and full[len(io_path) + 1:] in io_callables:
+            return io_callables[full[len(io_path) + 1:]]
         return None
 
-    rm = io_funcs.get("remove_file_offset_table")
-    prep = io_funcs.get("prepare_file_offset_table")
-    called_from_loader = {}
-    for c in [c for f in ldr.functions() for c in source.calls_in(f)]:
-        g_ = io_callee(c, ldr)
-        if g_ is not None:
-            called_from_loader[g_.name] = g_
-    if rm is None:
-        # role: the one-parameter io function the loader calls that deletes files whose names all evaluate (the preparer also deletes: its unfinished temporary table)
-        cands = [g_ for g_ in called_from_loader.values() if _removed_files(io_, g_) and None not in _removed_files(io_, g_)]
-        rm = cands[0] if len(cands) == 1 else None
-    if prep is None:
-        # role: the one-parameter io function the loader calls that writes the table (enters a table object as a context manager)
-        cands = [g_ for g_ in called_from_loader.values() if g_ is not rm and len(_own_params(g_)) == 1 and any(isinstance(x, ast.With) for x in walk_body(g_))
-                 and any(isinstance(x, ast.Name) and x.id == FT.name for x in ast.walk(g_))]
-        prep = cands[0] if len(cands) == 1 else None
-    removed = _removed_files(io_, rm) if rm is not None else set()
+    # ---- evaluation of file names and existence tests written in the loader: a machine over the loader whose view of the io module is a second machine over io, and whose file
+    # system is a set of existing paths the rule controls
+    world: set = set()
+    attempts: list = []  # names of the files the evaluated code tried to delete
+    m_io = _M(io_, None, None, None, budget=200000)
+
+    def delete(p, missing_ok=False):
+        """os.remove / os.unlink / Path.unlink in the rule's file system: the file is gone afterwards; deleting what is not there fails as it does in the host."""
+        if not isinstance(p, str):
+            raise _Cannot("deletion of a file whose name has no representative value")
+        attempts.append(p)
+        if p in world:
+            world.discard(p)
+        elif not missing_ok:
+            raise _Raised("FileNotFoundError", p)
+
+    def path_obj(*parts):
+        p = "/".join(str(x) for x in parts)
+        return _Obj(None, {"name": p.rsplit("/", 1)[-1]}, {"exists": _stub(lambda: p in world), "is_file": _stub(lambda: p in world), "__str__": _stub(lambda: p),
+                                                          "unlink": _stub(lambda missing_ok=False: delete(p, missing_ok))}, f"path {p}")
+
+    fs = {"os.path.exists": _stub(lambda p: p in world), "os.path.isfile": _stub(lambda p: p in world), "os.path.lexists": _stub(lambda p: p in world),
+          "pathlib.Path": _stub(path_obj), "os.fspath": _stub(lambda p: p), "os.path.join": _stub(lambda *a: "/".join(a)),
+          "os.remove": _stub(lambda p: delete(p)), "os.unlink": _stub(lambda p: delete(p))}
+    m_io.ext.update(fs)
+    bridge = dict(fs)
+    for g_ in io_funcs.values():
+        bridge[f"{io_path}.{g_.name}"] = _stub(lambda *a, _g=g_, **k: m_io.apply(_FnDef(_g), list(a), k))
+    for c_ in [c_ for c_ in io_.tree.body if isinstance(c_, ast.ClassDef)]:
+        for mm in io_.methods(c_).values():
+            if any(_last(d) in ("classmethod", "staticmethod") for d in mm.decorator_list):
+                bridge[f"{io_path}.{c_.name}.{mm.name}"] = _stub(lambda *a, _c=c_, _n=mm.name, **k: m_io.apply(m_io.getattr(_Cls(_c), _n), list(a), k))
+    io_defs = {id(n_) for n_ in ast.walk(io_.tree) if isinstance(n_, source.FUNC_TYPES + (ast.Lambda,))}
+
+    class _LoaderMachine(_M):
+        """the loader's machine; a method of an object that the io module's code created (the table object a factory returned: `table.exists()`, `table.delete()`) runs where it was
+        written - in the io machine, with the io module's imports and globals."""
+
+        def call_def(self, f, args, kwargs, owner=None, closure=None):
+            if id(f) in io_defs:
+                return m_io.call_def(f, args, kwargs, owner, closure)
+            return _M.call_def(self, f, args, kwargs, owner, closure)
+
+    m_l = _LoaderMachine(ldr, None, None, bridge, budget=200000)
+    m_l.strict_effects = m_io.strict_effects = True  # a statement that cannot be run may be the deletion the rule asks about
+
+    def io_root(c):
+        """the io callable at the root of a call (chain): `io.f(p)`, `io.Table.for_file(p).method()`, else None."""
+        n_ = c
+        while isinstance(n_.func, ast.Attribute) and isinstance(n_.func.value, ast.Call):
+            n_ = n_.func.value
+        return io_callee(n_, ldr)
+
+    def io_objects(f):
+        """single-assignment locals of f that hold what an io callable returned (`table = io.FileOffsetTable.read_for_data_file(p)`): a call on them is a call on that object."""
+        return {k_: v for k_, v in local_defs(f).items() if isinstance(v, ast.Call) and io_root(v) is not None}
+
+    def deleted_by_value(f, c):
+        """names of the files a call (chain) rooted in an io callable, written in the loader function f, tries to delete when every parameter / local of f it mentions is the sample
+        path - found by RUNNING it in the rule's file system with the table in place; None when it cannot be run."""
+        e = inline_node(c, io_objects(f))
+        if io_root(e) is None:
+            return None
+        env = {n_.id: _SAMPLE for n_ in ast.walk(e) if isinstance(n_, ast.Name) and (n_.id in _own_params(f) or n_.id in _local_names(f))}
+        if not env:
+            return None
+        del attempts[:]
+        for files in ({table, _SAMPLE}, {_SAMPLE}):
+            world.clear()
+            world.update(files)
+            m_l.steps = m_io.steps = 0
+            try:
+                m_l.val(e, env)
+            except _Raised:
+                pass
+            except _Cannot:
+                return None
+        return set(attempts)
+
+    def evaluated_deletions(g_):
+        """the io callable deletes files, and the name of each of them is evaluated."""
+        return bool(_removed_files(io_, g_)) and None not in _removed_files(io_, g_)
+
     table = next(iter(names.values()), None)
-    # located and evaluated first (else: not recognised), compared second
     if len(names) < 2 or any(v is None for v in names.values()):
         raise AnchorMissing(f"FileOffsetTable: the factories that compute the table's file name for a data file (evaluated: {names})")
-    if rm is None or not removed or None in removed:
-        raise AnchorMissing(f"{_I}: the file(s) remove_file_offset_table() deletes for a data file (evaluated: {sorted(map(str, removed))})")
+    prep = io_funcs.get("prepare_file_offset_table")
+    called_from_loader = {}
+    # role: the remover(s) - what the loader calls in the io module (a function, a static / class method, a method of the table object a factory returned) that deletes files: the
+    # names of the deleted files are found by RUNNING the call for a sample path, and - when it cannot be run - by evaluating the deletions written in the callable for its path
+    # parameter. (The preparer also deletes: its unfinished temporary table, whose name is whatever the table object holds at that point.) The module's wrapper may have been
+    # inlined into its callers (`io.FileOffsetTable.remove(p)`) or may have gained options (`missing_ok=False`): what counts is the file that is deleted for the data path.
+    rms = []  # (node to report, names of the files it deletes)
+    for f in ldr.functions():
+        objs = None
+        for c in source.calls_in(f):
+            g_ = io_callee(c, ldr)
+            if g_ is not None:
+                called_from_loader[id(g_)] = g_
+            if g_ is prep and prep is not None:
+                continue
+            on_object = False
+            if g_ is None and isinstance(c.func, ast.Attribute) and isinstance(c.func.value, (ast.Name, ast.Call)):
+                # a method of the object an io callable returned: `io.Table.for_file(p).delete()` / `table.delete()`
+                objs = io_objects(f) if objs is None else objs
+                on_object = io_root(c) is not None if isinstance(c.func.value, ast.Call) else c.func.value.id in objs
+            dv = deleted_by_value(f, c) if (g_ is not None and _may_delete(io_, g_)) or on_object else None
+            if dv:
+                rms.append((g_ if g_ is not None else c, dv))
+            elif dv is None and g_ is not None and evaluated_deletions(g_):
+                rms.append((g_, _removed_files(io_, g_)))
+    if io_funcs.get("remove_file_offset_table") is not None and not any(g_ is io_funcs["remove_file_offset_table"] for g_, _ in rms) and evaluated_deletions(io_funcs["remove_file_offset_table"]):
+        rms.insert(0, (io_funcs["remove_file_offset_table"], _removed_files(io_, io_funcs["remove_file_offset_table"])))
+    if prep is None:
+        # role: the one-parameter io function the loader calls that writes the table (enters a table object as a context manager)
+        cands = [g_ for g_ in called_from_loader.values() if not any(g_ is r_ for r_, _ in rms) and len(_own_params(g_)) == 1 and any(isinstance(x, ast.With) for x in walk_body(g_))
+                 and any(isinstance(x, ast.Name) and x.id == FT.name for x in ast.walk(g_))]
+        prep = cands[0] if len(cands) == 1 else None
+    if any(dl == {table} for _, dl in rms):
+        rms = [(g_, dl) for g_, dl in rms if dl == {table}]  # (next to a remover of the table, a callable that deletes some other file is not this rule's business)
+    removed = set().union(*[dl for _, dl in rms]) if rms else set()
+    # located and evaluated first (else: not recognised), compared second
+    if not rms or not removed or None in removed:
+        raise AnchorMissing(f"{_I}: what the loader calls in the io module to delete the offset table of a data file, and the file(s) that deletes (evaluated: {sorted(map(str, removed))})")
     ok = set(names.values()) == {table} and removed == {table}
-    chk.ob("O3.10", "writer, reader and remover of the table use the same file name for a data file", ok, rm, f"factories: {names}; removed: {sorted(map(str, removed))}",
+    chk.ob("O3.10", "writer, reader and remover of the table use the same file name for a data file", ok, rms[0][0], f"factories: {names}; removed: {sorted(map(str, removed))}",
            key=f"{_I}:remove_file_offset_table:table-name")
     if prep is None:
         raise AnchorMissing(f"{_I}: prepare_file_offset_table")
@@ -1543,7 +1702,7 @@ def _stale_table_rule(chk, ldr, io_):
         DP = cands[0]
     meths = ldr.methods(DP)
     mod_funcs = {f.name: f for f in ldr.tree.body if isinstance(f, source.FUNC_TYPES)}
-    removers = {g_.name for g_ in io_funcs.values() if _removed_files(io_, g_) == {table}}  # io functions after which the table of their argument is gone (whatever they are called)
+    removers = {id(g_) for g_ in io_callables.values() if _removed_files(io_, g_) == {table}}  # io callables that delete the table of the path they are handed - and nothing else
 
     def own_callee(c):
         """the own helper a call names: a method of the preparator (self.m / cls.m / Class.m) or a module-level function of the loader, else None."""
@@ -1553,27 +1712,6 @@ def _stale_table_rule(chk, ldr, io_):
         if isinstance(f_, ast.Name) and f_.id in mod_funcs:
             return mod_funcs[f_.id]
         return None
-
-    # ---- evaluation of file names and existence tests written in the loader: a machine over the loader whose view of the io module is a second machine over io, and whose file
-    # system is a set of existing paths the rule controls
-    world: set = set()
-    m_io = _M(io_, None, None, None, budget=200000)
-
-    def path_obj(*parts):
-        p = "/".join(str(x) for x in parts)
-        return _Obj(None, {"name": p.rsplit("/", 1)[-1]}, {"exists": _stub(lambda: p in world), "is_file": _stub(lambda: p in world), "__str__": _stub(lambda: p)}, f"path {p}")
-
-    fs = {"os.path.exists": _stub(lambda p: p in world), "os.path.isfile": _stub(lambda p: p in world), "os.path.lexists": _stub(lambda p: p in world),
-          "pathlib.Path": _stub(path_obj), "os.fspath": _stub(lambda p: p), "os.path.join": _stub(lambda *a: "/".join(a))}
-    m_io.ext.update(fs)
-    bridge = dict(fs)
-    for g_ in io_funcs.values():
-        bridge[f"{io_path}.{g_.name}"] = _stub(lambda *a, _g=g_, **k: m_io.apply(_FnDef(_g), list(a), k))
-    for c_ in [c_ for c_ in io_.tree.body if isinstance(c_, ast.ClassDef)]:
-        for mm in io_.methods(c_).values():
-            if any(_last(d) in ("classmethod", "staticmethod") for d in mm.decorator_list):
-                bridge[f"{io_path}.{c_.name}.{mm.name}"] = _stub(lambda *a, _c=c_, _n=mm.name, **k: m_io.apply(m_io.getattr(_Cls(_c), _n), list(a), k))
-    m_l = _M(ldr, None, None, bridge, budget=200000)
 
     def definite(f, x):
         """locals of f that hold the value of x whenever they are read: x itself and single-assignment locals bound to such a name."""
@@ -1612,6 +1750,28 @@ def _stale_table_rule(chk, ldr, io_):
                 return None
         return {(True, True, False): "false", (False, False, True): "true"}.get(tuple(got))
 
+    def removal_by_value(f, c, dn):
+        """what a call of an io callable written in f does to the table of the path (held by the names in dn), decided by RUNNING it in the rule's file system - whatever the
+        callable is called, whichever options it takes (`missing_ok=True`) and however the path reaches it: True - whenever it returns normally no table of the path exists, and
+        with the table in place it does return (an existing table is deleted, not merely looked at); False - it can return with the table still there; None - the call cannot be
+        evaluated. (With the table absent it may return or raise: a raise has no normal out-edge.)"""
+        e = inline_node(c, {k_: v for k_, v in local_defs(f).items() if k_ not in dn})
+        for files in ({table, _SAMPLE}, {table}, {_SAMPLE}, set()):
+            world.clear()
+            world.update(files)
+            m_l.steps = m_io.steps = 0
+            try:
+                m_l.val(e, {n_: _SAMPLE for n_ in dn})
+            except _Raised:
+                if table in files:
+                    return False  # (the table is there and the call fails: nothing this rule could call a removal)
+                continue
+            except _Cannot:
+                return None
+            if table in world:
+                return False
+        return True
+
     est_cache: dict = {}
 
     def establishing_edges(f, dn, depth=0):
@@ -1633,9 +1793,17 @@ def _stale_table_rule(chk, ldr, io_):
             t = _deleted_path_expr(c)
             if t is not None:
                 hit = lvalue(f, t, dn) == table
-            elif io_callee(c, ldr) is not None:
-                hit = io_callee(c, ldr).name in removers and len(c.args) + len(c.keywords) == 1 and isinstance((c.args + [k_.value for k_ in c.keywords])[0], ast.Name) \
-                    and (c.args + [k_.value for k_ in c.keywords])[0].id in dn
+            elif own_callee(c) is None and io_root(inline_node(c, io_objects(f))) is not None:
+                # a call of an io callable - or of a method of the object one returned (`table = io.FileOffsetTable.read_for_data_file(p)`, `table.delete()`) - that is handed
+                # the path: its effect on the table is decided on values; when it cannot be run: it is one of the callables that delete the table of their path parameter (and
+                # nothing else) and the path is what that parameter receives
+                g_ = io_callee(c, ldr)
+                if any(isinstance(n_, ast.Name) and n_.id in dn for n_ in ast.walk(inline_node(c, io_objects(f)))):
+                    hit = removal_by_value(f, c, dn)
+                    if hit is None and g_ is not None:
+                        a = bind_args(c, g_).get(_path_param(g_) or "")
+                        hit = id(g_) in removers and isinstance(a, ast.Name) and a.id in dn
+                    hit = bool(hit)
             elif own_callee(c) is not None and own_callee(c) is not f and depth < 3:
                 h = own_callee(c)
                 hit = any(isinstance(v, ast.Name) and v.id in dn and establishes(h, q, depth + 1) for q, v in bind_args(c, h).items())
@@ -1672,8 +1840,16 @@ def _stale_table_rule(chk, ldr, io_):
     def opaque_calls(f, names_, depth=0, skip=()):
         """calls in f that are handed the path (one of the names) and whose effect on the table the rule cannot tell."""
         out = []
+        objs = io_objects(f)
         for c in source.calls_in(f):
             args = list(c.args) + [k_.value for k_ in c.keywords]
+            # (a method of an object that an io callable built from the path - `table.delete()`, `io.Table.for_file(p).delete()` - is handed the path through that object)
+            recv = inline_node(c.func.value, objs) if isinstance(c.func, ast.Attribute) and not is_self_attr(c.func) and isinstance(c.func.value, (ast.Name, ast.Call)) \
+                and (isinstance(c.func.value, ast.Call) or c.func.value.id in objs) else None
+            if recv is not None and not any(c is s_ for s_ in skip) and io_root(recv) is not None and any(isinstance(n_, ast.Name) and n_.id in names_ for n_ in ast.walk(recv)):
+                if removal_by_value(f, c, names_) is None:
+                    out.append(c)
+                continue
             if any(c is s_ for s_ in skip) or not any(isinstance(n_, ast.Name) and n_.id in names_ for a in args for n_ in ast.walk(a)):
                 continue
             d = dotted(c.func) or ""
@@ -1685,8 +1861,10 @@ def _stale_table_rule(chk, ldr, io_):
                 continue
             g_ = io_callee(c, ldr)
             if g_ is not None:
-                if g_ is prep or None not in _removed_files(io_, g_):
-                    continue  # an io function whose deletions are all evaluated: understood, whether or not it removes the table
+                # understood, whether or not it removes the table: the preparer; an io callable that deletes nothing; one whose deletions are all evaluated for the path it is
+                # handed; one that the rule can run in its file system
+                if g_ is prep or not _may_delete(io_, g_) or (_path_param(g_) is not None and None not in _removed_files(io_, g_)) or removal_by_value(f, c, names_) is not None:
+                    continue
                 out.append(c)
                 continue
             h = own_callee(c)
@@ -3092,6 +3270,46 @@ _R3_DECOMPRESS = "                self.decompressor.decompress(archive_path, doc
 _R3_DOWNLOAD = "                    self.downloader.download(document_set.base_url, target_path, expected_size)\n                    self.invalidate_file_offset_table(doc_path)\n"
 _R3_BUNDLED = "                    self.decompressor.decompress(archive_path, doc_path, document_set.uncompressed_size_in_bytes)\n                    self.invalidate_file_offset_table(doc_path)\n"
 _R3_DP = "class DocumentSetPreparator:\n"
+# hardening round 4: the io module's pass-through remover inlined into its callers (`io.FileOffsetTable.remove(p)`) / the remover with an option (`missing_ok`)
+_R4_WRAPPER = ("def remove_file_offset_table(data_file_path: str) -> None:\n    \"\"\"\n\n    Attempts to remove the file offset table for the provided data path.\n\n"
+               "    :param data_file_path: The path to a text file that is readable by this process.\n    \"\"\"\n    FileOffsetTable.remove(data_file_path)\n\n\n")
+_R4_MISMATCH = "            io.remove_file_offset_table(document_file_path)\n            raise exceptions.DataError(\n"
+_R4_OS_REMOVE = "        os.remove(f\"{data_file_path}.offset\")\n"
+
+
+def _r4_inlined_remover(kind, name, test="io.FileOffsetTable.read_for_data_file(document_file_path).exists()", call="io.FileOffsetTable.remove(document_file_path)", extra=()):
+    """benign/C14-b10: remove_file_offset_table() is gone from the io module, the preparator calls the table class's own remover (test: what the invalidation asks first)."""
+    return [V(f"r4: the io module's pass-through remover inlined into its callers{name}", kind, _I, _R4_WRAPPER, "", "O3.10" if kind == "break" else None),
+            V("", kind, _L, _R3_INV, _R3_INV_HEAD + f"        if {test}:\n            {call}\n"),
+            V("", kind, _L, _R4_MISMATCH, _R4_MISMATCH.replace("io.remove_file_offset_table(document_file_path)", "io.FileOffsetTable.remove(document_file_path)"))] + list(extra)
+
+
+def _r4_required_flag(kind, name, body):
+    """the io module's remover takes a second REQUIRED parameter (body: what it does): which parameter is the path is known from what the call deletes for it."""
+    return [V(f"r4: the io module's remover with a required missing_ok flag{name}", kind, _I, "def remove_file_offset_table(data_file_path: str) -> None:",
+              "def remove_file_offset_table(data_file_path: str, missing_ok: bool) -> None:", "O3.10" if kind == "break" else None),
+            V("", kind, _I, "    FileOffsetTable.remove(data_file_path)\n", body),
+            V("", kind, _L, _R3_INV, _R3_INV_HEAD + "        io.remove_file_offset_table(document_file_path, True)\n"),
+            V("", kind, _L, _R4_MISMATCH, _R4_MISMATCH.replace("(document_file_path)", "(document_file_path, False)"))]
+
+
+def _r4_table_object(kind, name, body, extra=(), path="document_file_path"):
+    """the invalidation works on the table object a factory returns: `table.exists()` / `table.delete()` (body: what the new method FileOffsetTable.delete does)."""
+    return [V(f"r4: the invalidation asks and deletes through the table object{name}", kind, _I, "    @staticmethod\n    def remove(data_file_path: str) -> None:",
+              "    def delete(self) -> None:\n" + body + "\n    @staticmethod\n    def remove(data_file_path: str) -> None:", "O3.10" if kind == "break" else None),
+            V("", kind, _L, _R3_INV, _R3_INV_HEAD + f"        table = io.FileOffsetTable.read_for_data_file({path})\n        if table.exists():\n            table.delete()\n")] + list(extra)
+
+
+def _r4_missing_ok(kind, name, body, call="io.remove_file_offset_table(document_file_path, missing_ok=True)"):
+    """benign/C03-b11: the remover takes `missing_ok` (body: what FileOffsetTable.remove does), the invalidation no longer asks whether there is a table."""
+    return [V(f"r4: remover with a missing_ok option, the invalidation calls it without asking{name}", kind, _I, "    def remove(data_file_path: str) -> None:", "    def remove(data_file_path: str, missing_ok: bool = False) -> None:",
+              "O3.10" if kind == "break" else None),
+            V("", kind, _I, _R4_OS_REMOVE, body),
+            V("", kind, _I, "def remove_file_offset_table(data_file_path: str) -> None:", "def remove_file_offset_table(data_file_path: str, missing_ok: bool = False) -> None:"),
+            V("", kind, _I, "    FileOffsetTable.remove(data_file_path)\n", "    FileOffsetTable.remove(data_file_path, missing_ok=missing_ok)\n"),
+            V("", kind, _L, _R3_INV, _R3_INV_HEAD + f"        {call}\n")]
+
+
 
 
 def _r3_module_level_invalidation(kind, body, rule=None):
@@ -3381,4 +3599,32 @@ VARIANTS = [
     [V("r3: dataclass records for the bulks, the record counts lines instead of documents", "break", _P, *_R3_DATACLASS, "O3"), V("", "break", _P, *_R3_BULK_CLASS),
      V("", "break", _P, _R3_BATCH_APPEND, "                batch.append(Bulk(len(bulk), body=b\"\".join(bulk)))\n"), V("", "break", _P, _R3_BULK_LOOP[0], "        for bulk in batch:\n"),
      V("", "break", _P, _R3_BULK_LOOP[1], "                \"body\": bulk.body,\n"), V("", "break", _P, _R3_BULK_LOOP[2], "                \"bulk-size\": bulk.docs,\n")],
+    # ---- hardening round 4 (benign/C14-b10, C03-b11) --------------------------------------------------------------------------------------------------------------
+    # O3.10 re-stated: the remover is whatever io callable (function, static / class method, through the module alias) the loader calls that deletes the table's file; what a call of
+    # it does to the table is decided by RUNNING it in the rule's file system (table present / absent), whatever options it takes
+    _r4_inlined_remover("keep", ""),
+    _r4_inlined_remover("keep", ", path by keyword, plain existence test", "os.path.exists(f\"{document_file_path}.offset\")", "io.FileOffsetTable.remove(data_file_path=document_file_path)"),
+    _r4_inlined_remover("keep", ", the remover is a class method that asks the reader factory for the name", extra=[
+        V("", "keep", _I, "    @staticmethod\n    def remove(data_file_path: str) -> None:", "    @classmethod\n    def remove(cls, data_file_path: str) -> None:"),
+        V("", "keep", _I, _R4_OS_REMOVE, "        os.remove(cls.read_for_data_file(data_file_path).offset_table_path)\n")]),
+    _r4_inlined_remover("break", " - the class's remover deletes another file name", extra=[V("", "break", _I, _R4_OS_REMOVE, "        os.remove(f\"{data_file_path}.offsets\")\n")]),
+    _r4_inlined_remover("break", " - the invalidation asks for the table of another file", "io.FileOffsetTable.read_for_data_file(document_file_path + \".bz2\").exists()"),
+    _r4_inlined_remover("break", " - the invalidation removes only when there is NO table", "not io.FileOffsetTable.read_for_data_file(document_file_path).exists()"),
+    _r4_missing_ok("keep", "", "        try:\n            os.remove(f\"{data_file_path}.offset\")\n        except FileNotFoundError:\n            if not missing_ok:\n                raise\n"),
+    _r4_missing_ok("keep", " (existence asked inside the remover)",
+                   "        if missing_ok and not os.path.exists(f\"{data_file_path}.offset\"):\n            return\n        os.remove(f\"{data_file_path}.offset\")\n"),
+    _r4_missing_ok("break", " - the remover's shortcut looks for another file and returns with the table in place",
+                   "        if missing_ok and not os.path.exists(f\"{data_file_path}.offsets\"):\n            return\n        os.remove(f\"{data_file_path}.offset\")\n"),
+    _r4_missing_ok("break", " - with missing_ok the remover does nothing at all",
+                   "        if missing_ok:\n            return\n        os.remove(f\"{data_file_path}.offset\")\n"),
+    [V("r4: the table class is imported by name, its remover called directly", "keep", _L, "import urllib.error\n", "import urllib.error\nfrom esrally.utils.io import FileOffsetTable\n"),
+     V("", "keep", _L, _R3_INV, _R3_INV_HEAD + "        if FileOffsetTable.read_for_data_file(document_file_path).exists():\n            FileOffsetTable.remove(document_file_path)\n")],
+    _r4_required_flag("keep", "", "    try:\n        FileOffsetTable.remove(data_file_path)\n    except FileNotFoundError:\n        if not missing_ok:\n            raise\n"),
+    _r4_required_flag("break", " - with the flag set it returns at once", "    if missing_ok:\n        return\n    FileOffsetTable.remove(data_file_path)\n"),
+    _r4_table_object("keep", "", "        os.remove(self.offset_table_path)\n"),
+    _r4_table_object("keep", " (pathlib, missing_ok)", "        pathlib.Path(self.offset_table_path).unlink(missing_ok=True)\n", [V("", "keep", _I, "import os\n", "import os\nimport pathlib\n")]),
+    _r4_table_object("break", " - delete() removes the DATA file's name with another suffix", "        os.remove(f\"{self.data_file_path}.offsets\")\n"),
+    _r4_table_object("break", " - the table object is the one of the archive", "        os.remove(self.offset_table_path)\n", path="document_file_path + \".bz2\""),
+    _r4_missing_ok("break", " - the remover swallows the error of deleting another file name",
+                   "        try:\n            os.remove(f\"{data_file_path}.offsets\")\n        except FileNotFoundError:\n            if not missing_ok:\n                raise\n"),
 ]
